@@ -568,39 +568,38 @@ impl E2 {
                 let _ = std::fs::remove_dir_all(&dst);
                 res
             }
-            // C15: one commit is held inside apply (active-memtable lock taken by the facade) while
-            // `n` oversized commits fail with BatchTooLarge and one more small commit is attempted
+            // C15 (regression of C15-N9 / F43): one commit is held inside apply (active-memtable lock taken by the
+            // facade) while `n` oversized commits fail with BatchTooLarge and one more small commit is attempted.
+            // Every commit runs as a task; the lock is released after all of them have been started, then all are
+            // joined.  Reports how many failing commits had already returned while the slow commit was still
+            // applying (0 when a failing commit waits for its queue entry to be drained) and every outcome.
             ["qoverflow", n, big] => {
                 let n: usize = n.parse().unwrap();
                 let big: usize = big.parse().unwrap();
                 let tree = self.tree.as_ref().unwrap();
-                let mut out: Vec<String> = Vec::new();
                 let _g = self.rt.enter();
                 let mut slow = tree.begin_with_mode(Mode::ReadWrite).unwrap();
                 slow.set(b"slow".to_vec(), b"1".to_vec()).unwrap();
                 let rt = &self.rt;
-                let res = surrealkv::verif::pipefail::with_active_memtable_locked(tree, || {
+                let pause = || std::thread::sleep(std::time::Duration::from_millis(300));
+                let (h, fails, hl, early, returned) = surrealkv::verif::pipefail::with_active_memtable_locked(tree, || {
                     let h = rt.spawn(async move { slow.commit().await.map_err(|e| err_name(&e)) });
-                    std::thread::sleep(std::time::Duration::from_millis(300));
-                    out.push(format!("slow_finished_early={}", h.is_finished()));
+                    pause();
+                    let early = h.is_finished();
+                    let mut fails = Vec::new();
                     for i in 0..n {
                         let mut tx = tree.begin_with_mode(Mode::ReadWrite).unwrap();
                         tx.set(format!("big{}", i).into_bytes(), vec![7u8; big]).unwrap();
-                        let r = std::panic::catch_unwind(std::panic::AssertUnwindSafe(|| rt.block_on(tx.commit())));
-                        out.push(match r {
-                            Ok(Ok(())) => "ok".into(),
-                            Ok(Err(e)) => format!("err:{}", err_name(&e)),
-                            Err(p) => format!("PANIC:{}", p.downcast_ref::<String>().cloned().or_else(|| p.downcast_ref::<&str>().map(|s| s.to_string())).unwrap_or_default().replace(' ', "_")),
-                        });
+                        fails.push(rt.spawn(async move { tx.commit().await.map_err(|e| err_name(&e)) }));
                     }
+                    pause();
+                    let returned = fails.iter().filter(|f| f.is_finished()).count();
                     let mut tx = tree.begin_with_mode(Mode::ReadWrite).unwrap();
                     tx.set(b"last".to_vec(), b"2".to_vec()).unwrap();
-                    // the last commit would block in apply as well (the lock is still held): give it a thread
                     let hl = rt.spawn(async move { tx.commit().await.map_err(|e| err_name(&e)) });
-                    std::thread::sleep(std::time::Duration::from_millis(300));
-                    (h, hl)
+                    pause();
+                    (h, fails, hl, early, returned)
                 });
-                let (h, hl) = res;
                 let show = |r: Result<Result<(), String>, tokio::task::JoinError>| match r {
                     Ok(Ok(())) => "ok".to_string(),
                     Ok(Err(e)) => format!("err:{}", e),
@@ -613,9 +612,16 @@ impl E2 {
                         }
                     }
                 };
-                let last = show(self.rt.block_on(hl));
-                let slow_r = show(self.rt.block_on(h));
-                format!("{} last={} slow={}", out.join(","), last, slow_r)
+                let join = |h: tokio::task::JoinHandle<Result<(), String>>| {
+                    match self.rt.block_on(async { tokio::time::timeout(std::time::Duration::from_secs(20), h).await }) {
+                        Ok(r) => show(r),
+                        Err(_) => "STUCK".to_string(),
+                    }
+                };
+                let last = join(hl);
+                let slow_r = join(h);
+                let outs: Vec<String> = fails.into_iter().map(join).collect();
+                format!("slow_finished_early={} returned_while_blocked={} fails={} last={} slow={}", early, returned, outs.join(","), last, slow_r)
             }
             ["rotate"] => self.phys(|t| fe::rotate(t)),
             ["flush"] => self.phys(|t| fe::flush_all(t)),
